@@ -7,7 +7,7 @@ import warnings
 import core
 
 THEOREMS = ["InfOCF.C10_parse_iff", "InfOCF.parseFm_sound", "InfOCF.parseFm_complete", "InfOCF.D_unique", "InfOCF.C10_precedence",
-            "InfOCF.C10_reject_iff", "InfOCF.C10_print_parse", "InfOCF.C10_eval_and_or", "InfOCF.C10_text_roundtrip", "InfOCF.lex_unlex"]
+            "InfOCF.C10_reject_iff", "InfOCF.C10_print_parse", "InfOCF.C10_eval_and_or", "InfOCF.C10_text_roundtrip", "InfOCF.lex_unlex", "InfOCF.C10_conditions_order", "InfOCF.parseFmPrefix_fmToks", "InfOCF.C10_base_roundtrip", "InfOCF.lex_unlex_all"]
 RULE = ("generated texts: formulas of nesting depth 0-5 printed with minimal / redundant parentheses, random blanks, tabs, // and /* */ "
         "comments; belief-base files (signature, 1-2 blocks, 0-6 conditionals, blank lines, comments) and query lists; about 35% are "
         "mutated (token deleted / duplicated / swapped, illegal character, trailing text, missing separator, early end, unterminated "
@@ -255,6 +255,18 @@ def compare(case, impl, resp):
             return fail(f"{case['kind']}: antecedent has a different truth table", item["text"], ctext)
         if item["reparse"] is not True:
             return fail(f"{case['kind']}: text representation does not re-parse to an equivalent conditional", [item["text"], item["reparse"]], True)
+    eb = case.get("expect_base")
+    if eb is not None:
+        if impl["signature"] != list(eb["signature"]) or impl["name"] != eb["name"] or len(impl["conds"]) != len(eb["conds"]):
+            return fail("base: the printed file is read with a different signature, name or number of conditionals",
+                        [impl["signature"], impl["name"], len(impl["conds"])], [eb["signature"], eb["name"], len(eb["conds"])])
+        for item, (b, a) in zip(impl["conds"], eb["conds"]):
+            b, a = tuple_of(b), tuple_of(a)
+            atoms = item["atoms"]
+            if item["cons"] is None:
+                continue
+            if not set(atoms) >= (pf_atoms(b, set()) | pf_atoms(a, set())) or item["cons"] != table_of_pf(b, atoms) or item["ante"] != table_of_pf(a, atoms):
+                return fail("base: a conditional of the printed file is read as a different conditional", item["text"], [b, a])
     return None
 
 
@@ -353,6 +365,26 @@ def run(ctx):
         lt_cases.append({"kind": "formula", "depth": f_depth(f), "mutated": False, "origin": "lean-printer", "expect": f})
     for c, t in zip(lt_cases, core.driver_batch(lt_lines)):
         c["text"] = t
+        cases.append(c)
+    # belief-base files written by the Lean printer `baseText` (C10_base_roundtrip)
+    bt_cases, bt_lines = [], []
+    for _ in range(n_b // 4):
+        names = rng.sample(ATOM_NAMES, rng.randint(1, 5))
+        conds = [(gen_f(rng, rng.randint(0, 3), names), gen_f(rng, rng.randint(0, 3), names)) for _ in range(rng.randint(0, 5))]
+
+        def pre(g):
+            if g[0] == "v":
+                return [f"a{names.index(g[1])}"]
+            if g[0] in ("T", "F"):
+                return [g[0]]
+            return [g[0]] + [t for h in g[1:] for t in pre(h)]
+        bname = rng.choice(["kb", "birds005", "K_x", "b-2"])
+        bt_lines.append(f"btext {len(names)} " + " ".join(names) + f" {bname} {len(conds)} " +
+                        " ".join("C %d %s %s" % (i + 1, " ".join(pre(b)), " ".join(pre(a))) for i, (b, a) in enumerate(conds)))
+        bt_cases.append({"kind": "base", "depth": 2, "mutated": False, "origin": "lean-printer",
+                         "expect_base": {"signature": names, "name": bname, "conds": conds}})
+    for c, t in zip(bt_cases, core.driver_batch(bt_lines)):
+        c["text"] = bytes.fromhex(t).decode("utf-8")
         cases.append(c)
     for _ in range(n_b):
         text = gen_base_text(rng, noise=rng.choice([0, 1]))
